@@ -22,11 +22,13 @@ import (
 // routeCase is the concrete, replayable case of C01/C02 (and C07's model part):
 // a route list in registration order and request paths.
 type routeCase struct {
-	Level   string   `json:"level"` // "tree" (route.Tree.Match) or "flame" (Flame.ServeHTTP)
-	Routes  []string `json:"routes"`
-	Methods []string `json:"methods,omitempty"`     // flame level: method of each route
-	Paths   []core.B `json:"paths"`                 // request paths
-	ReqMeth []string `json:"req_methods,omitempty"` // flame level: method of each request
+	Level    string   `json:"level"` // "tree" (route.Tree.Match) or "flame" (Flame.ServeHTTP)
+	Routes   []string `json:"routes"`
+	Methods  []string `json:"methods,omitempty"`                 // flame level: method of each route
+	Paths    []core.B `json:"paths"`                             // request paths
+	ReqMeth  []string `json:"req_methods,omitempty"`             // flame level: method of each request
+	Continue bool     `json:"keep_tree_after_refusal,omitempty"` // the same tree keeps being used after a refused registration (no rebuild)
+	RawPath  bool     `json:"set_raw_path,omitempty"`            // flame level: requests also carry URL.RawPath (a valid, non-canonical encoding of Path, as a parsed request would)
 }
 
 func init() {
@@ -85,7 +87,7 @@ func safeMatch(t route.Tree, path string, h http.Header) (leaf route.Leaf, param
 func genRouteCase(rng *rand.Rand, flameLevel bool, nPaths int) *routeCase {
 	cfg := gen.Cfg{AllowRoot: true}
 	set := gen.GenSet(rng, cfg, 10)
-	c := &routeCase{Level: "tree"}
+	c := &routeCase{Level: "tree", Continue: rng.Intn(4) == 0, RawPath: rng.Intn(3) == 0}
 	for _, rt := range set {
 		txt := rt.Render()
 		// The structure of a generated route is known from its derivation; the
@@ -143,7 +145,7 @@ func runRouteLoop(r *core.Run, prop string) {
 	})
 	if prop == "C01" {
 		r.Gate("distinct_nontrivial", r.NonTrivialCount(), 500)
-		for _, k := range []string{"decided:rank", "decided:registration-order", "decided:fewest-captured", "decided:final-matchall-deferred", "backtrack-needed", "not-found-agree", "flame-level-dispatches", "unknown-method-requests"} {
+		for _, k := range []string{"decided:rank", "decided:registration-order", "decided:fewest-captured", "decided:final-matchall-deferred", "backtrack-needed", "not-found-agree", "flame-level-dispatches", "unknown-method-requests", "kept-tree-after-refusal", "requests-with-raw-path"} {
 			r.GateCounter(k, 1)
 		}
 		r.GateCounter("dispatches-compared", int64(nSets)*int64(nPaths)/2)
@@ -210,6 +212,10 @@ func judgeRouteCase(w *core.W, c *routeCase, prop string, parser *route.Parser) 
 			continue
 		}
 		w.Count("routes-rejected-both")
+		if c.Continue {
+			w.Count("kept-tree-after-refusal")
+			continue
+		}
 		// restart semantics: rebuild from the accepted routes so that nothing a
 		// refused registration may have left behind influences dispatch (that is C08's subject)
 		tree = route.NewTree()
@@ -556,6 +562,10 @@ func judgeRouteCaseFlame(w *core.W, c *routeCase, prop string) {
 			accepted = append(accepted, accRoute{idx: i, txt: txt, method: method})
 			continue
 		}
+		if c.Continue {
+			w.Count("kept-tree-after-refusal")
+			continue
+		}
 		var ok bool
 		if f, ok = build(accepted); !ok {
 			w.Count("abandoned:rebuild-failed(C08)")
@@ -580,6 +590,10 @@ func judgeRouteCaseFlame(w *core.W, c *routeCase, prop string) {
 		hit, seen, nf = -1, nil, false
 		rec := httptest.NewRecorder()
 		req := &http.Request{Method: method, URL: &url.URL{Path: path}, Header: http.Header{}, RequestURI: path}
+		if c.RawPath {
+			req.URL.RawPath = nonCanonicalEncoding(path, k)
+			w.Count("requests-with-raw-path")
+		}
 		var pan interface{}
 		func() {
 			defer func() { pan = recover() }()
@@ -601,6 +615,28 @@ func judgeRouteCaseFlame(w *core.W, c *routeCase, prop string) {
 			return
 		}
 	}
+}
+
+// nonCanonicalEncoding returns a valid percent-encoding of path that differs from the canonical one
+// (what URL.RawPath holds after parsing e.g. "/users/%61dmin" or "/files/a%2Fb"); routing is defined on Path.
+func nonCanonicalEncoding(path string, salt int) string {
+	const hex = "0123456789abcdef"
+	var sb strings.Builder
+	for i := 0; i < len(path); i++ {
+		b := path[i]
+		if b == '/' && (i+salt)%5 != 0 {
+			sb.WriteByte(b)
+			continue
+		}
+		if (i+salt)%3 == 0 || b == '%' || b < 0x21 || b > 0x7e {
+			sb.WriteByte('%')
+			sb.WriteByte(hex[b>>4])
+			sb.WriteByte(hex[b&15])
+			continue
+		}
+		sb.WriteByte(b)
+	}
+	return sb.String()
 }
 
 func isKnownMethod(m string) bool {
@@ -626,6 +662,8 @@ func flameRegister(f *flamego.Flame, method, txt string, idx int, hit *int, seen
 			cp[k] = v
 		}
 		*seen = cp
+		// handlers own the map they are given: what one request leaves in it must never reach another request
+		c.Params()["left-behind-by-an-earlier-request"] = txt
 	}
 	rt = f.Route(method, txt, []flamego.Handler{h})
 	return
